@@ -152,9 +152,12 @@ public:
     record* entry=pop(data_list);
     if(!entry) //no cached memory available
       return(T());
+    //Copy the object out before giving the record back: once it is on the
+    //free list another thread's insert may overwrite it at any time
+    T result=entry->data;
     push(free_list,entry);
     SQUIDS_VERIF_POINT(7);
-    return(*entry);
+    return(result);
   }
 
 #ifdef SQUIDS_VERIF
